@@ -62,6 +62,7 @@ def required(tier):
         "with_ignore_case": 20,
         "with_named_matches": 30,
         "with_one_operator_on_most_references": 30,
+        "with_action_lists_per_alternative": 30,
     }
     for s in SHAPES:
         d["shape." + s] = 10
@@ -401,9 +402,24 @@ def one(ctx):
     try:
         with pgx.watchdog(60):
             akw = {"actions": TAG_ACTIONS} if "actions" in m["feats"] else {}
+            makw = dict(akw)
+            if not m["feats"] & {"actions", "named", "rep"} and rng.random() < 0.3:
+                # one action per alternative (a list) for every rule, keyed by the rule's qualified
+                # name in the modular grammar and by its flat name in the flattened one; several
+                # files define rules with the same local name
+                eff0 = dict(m["rules"])
+                if m["override"]:
+                    eff0[m["override"][0]] = m["override"][1]
+
+                def lists(namer):
+                    return {namer(k): [(lambda label, i: (lambda _, nodes: ("L", label, i, nodes)))(flat_name(*k), i) for i in range(len(eff0[k]))] for k in reach}
+
+                makw = {"actions": lists(lambda k: m["fqn"][k])}
+                akw = {"actions": lists(lambda k: flat_name(*k))}
+                ctx.count("with_action_lists_per_alternative")
             ic = "ignore_case" in m["feats"]
             gkw = {"ignore_case": True} if ic else {}
-            pg, glr, lr = load_modular(texts, m["dirs"], akw.get("actions"), ic)
+            pg, glr, lr = load_modular(texts, m["dirs"], makw.get("actions"), ic)
             fpg = pgx.grammar(flat_text, **gkw)
             fglr = pgx.glr(fpg, **akw)
             flr = None
